@@ -415,6 +415,7 @@ func c19widened(v ssa.Value, bits int) bool {
 // ---------------------------------------------------------------------------
 
 func checkC19(c *Check) {
+	lockBalanceRule(c, "C19", pUDPHop)
 	p := c.P
 	x := &c19ctx{c: c, p: p, la: p.Locks(), openers: map[*ssa.Call]bool{}, recvFns: map[*ssa.Function]bool{}}
 	const tn = "udpHopPacketConn"
